@@ -138,28 +138,28 @@ def run(ctx):
     # a conversation whose halves change protocol: the first request of the connection asks for h2c, the server declines.
     # No abstract pairing is expected here (the client half gives up after the upgrade request); the property itself is
     # the oracle: every schedule gives the result of the first one.
-    for cfg in configs(ctx)[1:]:
-        args = ["conc", "httpup", str(max_runs)] + ["%d:%s:%s" % (c, d, ",".join(map(str, ps))) for c, d, ps in cfg]
+    for xproto, cfg in [("httpup", c) for c in configs(ctx)[1:]] + [("redissub", c) for c in configs(ctx)[:4]]:
+        args = ["conc", xproto, str(max_runs)] + ["%d:%s:%s" % (c, d, ",".join(map(str, ps))) for c, d, ps in cfg]
         rc, out = ctx.vh("vh-match", args, timeout=2400)
         lines = [json.loads(l) for l in out.split("\n") if l.startswith("{")]
         if rc != 0 or not lines or "runs" not in lines[-1]:
-            ctx.broken.append("K_conc[httpup]: scheduler run failed for %s" % (cfg,))
+            ctx.broken.append("K_conc[%s]: scheduler run failed for %s" % (xproto, cfg))
             continue
         ref, reported = None, 0
         for r in lines[:-1]:
             if r.get("err"):
-                ctx.violation({"kind": "schedule", "protocol": "httpup", "config": cfg, "error": r["err"],
+                ctx.violation({"kind": "schedule", "protocol": xproto, "config": cfg, "error": r["err"],
                                "schedule": [s["Worker"] + "@" + s["Site"] for s in r["steps"]], "how": "vh-match " + " ".join(args)})
                 continue
             res = r["res"]
             key = (sorted((i["conn"], i["req"], i["resp"], i["oriented"]) for i in res["items"] or []),
                    sorted((x["conn"], x["key"], x["isreq"], x["pid"]) for x in res["residue"] or []), res["ends"])
-            ctx.count_case(("httpup", str(cfg), tuple(s["Worker"] + "@" + s["Site"] for s in r["steps"])), True, "httpup")
+            ctx.count_case((xproto, str(cfg), tuple(s["Worker"] + "@" + s["Site"] for s in r["steps"])), True, xproto)
             if ref is None:
                 ref = (key, r)
             elif key != ref[0] and reported < 2:
                 reported += 1
-                ctx.violation({"kind": "schedule", "protocol": "httpup", "config": cfg,
+                ctx.violation({"kind": "schedule", "protocol": xproto, "config": cfg,
                                "schedule": [s["Worker"] + "@" + s["Site"] for s in r["steps"]], "observed": res,
                                "reference_schedule": [s["Worker"] + "@" + s["Site"] for s in ref[1]["steps"]], "reference": ref[1]["res"],
                                "how": "vh-match " + " ".join(args)})
@@ -189,7 +189,8 @@ def run(ctx):
     return ctx.finish(
         rule="every schedule of the yield points of the real redis and http Dissect of both directions under the deterministic scheduler for the listed conversations "
              "(1x1, 2x1, 2x2, 3x3 exchanges; thorough adds two connections and 4x3, capped at max_runs schedules per configuration); distinct = distinct model trace; "
-             "plus an HTTP/1.1 connection whose first request asks for h2c and is declined (every schedule against the first)",
+             "plus an HTTP/1.1 connection whose first request asks for h2c and is declined, and a Redis connection with SUBSCRIBE / PSUBSCRIBE commands "
+             "and their acknowledgement arrays (every schedule against the first)",
         assumptions=["one goroutine per direction per connection", "sync.Map / sync.Mutex linearizable"],
         extra={"max_runs_per_config": max_runs})
 
